@@ -120,6 +120,8 @@ def _opaque_srs(it, a, k):
     n = si.fields['_number_of_channels']
     # ASSUMED: a power profile is positive (RamanSolver, C05)
     it.p.assume(_Forall(0, n, lambda i: _SV(f(i.t, _z3.IntVal(2)) > 0)))
+    if len(a) > 1 and isinstance(a[1], _Obj):
+        a[1].fields['ghost_probe_pch'] = si.fields['_pch']       # ghost: the channel powers the solver is handed
     return _Obj('<ns>', {'loss_profile': _Mat(n, 3, lambda i, j: _SV(f(i if not isinstance(i, int) else _z3.IntVal(i),
                                                                        j if not isinstance(j, int) else _z3.IntVal(j))))})
 
@@ -128,14 +130,17 @@ contract('gnpy.core.info.create_input_spectral_information', name='gnpy.core.inf
          trusted=True, props=[], spec=SPEC_INV,
          params={'f_min': real(), 'f_max': real(), 'roll_off': real(), 'baud_rate': real(), 'spacing': real(), 'tx_osnr': real(),
                  'tx_power': real()},
-         ensures=[('inv', 'INV(result)')], returns=SI(), pure=True,
-         note='ASSUMED: returns a well-formed spectrum (uniform comb); used where only the frame of the caller matters')
+         ensures=[('inv', 'INV(result)'), ('uniform_launch_power', 'forall(lambda i: result._pch[i] == tx_power, NCH(result))')],
+         returns=SI(), pure=True,
+         note='ASSUMED: returns a well-formed uniform comb, every channel at tx_power (no per-channel offset is passed at this call site)')
 OV_RAMAN = {
     ('gnpy.core.parameters', 'SimParams._shared_dict'): lambda it: it.p.live['equipment']['ghost_shared'],
     ('gnpy.core.network', 'RamanSolver'): lambda it: _Obj('<ns>', {'calculate_stimulated_raman_scattering': _Builtin('srs', _opaque_srs)}),
 }
 EQ_RAMAN = dct(ghost_shared=dct(nli_params=NLI, raman_params=RAMAN), SI=dct(default=obj('<ns>', f_min=real(), f_max=real(), roll_off=real(), baud_rate=real(), spacing=real(), tx_osnr=real())))
-contract('gnpy.core.network.estimate_raman_gain', props=['C17'], overrides=OV_RAMAN, use_at_calls=False,
+contract('gnpy.core.network.estimate_raman_gain', props=['C17', 'C09'], overrides=OV_RAMAN, use_at_calls=False,
+         prop_clauses={'C09': ['probe_enters_the_fibre_behind_padding_and_input_connector', 'call '],
+                       'C17': ['nli_restored', 'raman_restored', 'frame', 'call ']},
          params={'node': obj('RamanFiber', uid=string(), loss=real(), params=obj('<ns>', con_in=real(), att_in=real(), con_out=real())),
                  'equipment': EQ_RAMAN, 'power_dbm': real()},
          requires=[('method_is_stored_lowercase', "equipment['ghost_shared']['nli_params'].method == equipment['ghost_shared']['nli_params'].method.lower()")],
@@ -149,7 +154,12 @@ contract('gnpy.core.network.estimate_raman_gain', props=['C17'], overrides=OV_RA
                                    'implies(n1.computed_number_of_channels is not None, n2.computed_number_of_channels == n1.computed_number_of_channels)'),
                   ('raman_restored', 'iff(r2.flag, r1.flag) and r2.method == r1.method and r2.order == r1.order and '
                                      'r2.result_spatial_resolution == r1.result_spatial_resolution and '
-                                     'r2.solver_spatial_resolution == r1.solver_spatial_resolution')],
-         modifies=["equipment['ghost_shared'][*]", 'node.estimated_gain'],
+                                     'r2.solver_spatial_resolution == r1.solver_spatial_resolution'),
+                  # the gain is estimated for the power that really enters the fibre: three channels' worth of the design power
+                  # per probe channel, behind the padding attenuator and the input connector
+                  ('probe_enters_the_fibre_behind_padding_and_input_connector',
+                   'forall(lambda i: node.ghost_probe_pch[i] == 3 * (spec_db2lin(power_dbm) * 1e-3) * (1 / spec_db2lin(node.params.con_in + node.params.att_in)), '
+                   'len(node.ghost_probe_pch))')],
+         modifies=["equipment['ghost_shared'][*]", 'node.estimated_gain', 'node.ghost_probe_pch'],
          note='callees create_input_spectral_information and RamanSolver.calculate_stimulated_raman_scattering are opaque '
               '(ASSUMED not to write SimParams: they are handed the spectrum and the fibre only)')
